@@ -26,7 +26,7 @@ ASSUMPTIONS = ["the wall colour is opaque black in both modes (gray map at -1 wi
 NSHARDS = {"quick": 16, "thorough": 16}
 THRESHOLDS = {"quick": {"c20:plots": 1200, "c20:kind:LatticeMaze": 200, "c20:kind:TargetedLatticeMaze": 200, "c20:kind:SolvedMaze": 200,
                         "c20:with-values": 300, "c20:without-values": 300, "c20:strips-checked": 20000, "c20:blocks-checked": 10000,
-                        "c20:true-path": 500, "c20:predicted-path": 500, "c20:ascii": 1200, "c20:oblong": 100,
+                        "c20:true-path": 500, "c20:predicted-path": 500, "c20:ascii": 1200, "c20:ascii-with-options": 3600, "c20:oblong": 100,
                         **{f"c20:ul:{u}": 100 for u in (3, 4, 5, 9, 14, 19, 31)}, "c20:int8-paths": 300, "c20:values-contain-minus-one": 200, "c20:negative-values": 50, "c20:constant-values": 50,
                         "c20:replots": 900, "c20:many-predicted-paths": 100, "c20:predicted-paths-sharing-a-label": 60, "c20:rejected-values-call": 200, "c20:drawn-images": 2000, "c20:replot-plain-after-values": 300, "c20:detour-solution": 30}}
 THRESHOLDS["thorough"] = dict(THRESHOLDS["quick"])
@@ -232,6 +232,13 @@ def run(ctx):
                 warnings.simplefilter("ignore")
                 mp = MazePlot(maze, unit_length=ul)
                 ascii_plot = mp.to_ascii()
+                # (the exports with options are taken here too: before any path is added, the plot shows the maze it was given)
+                opt_exports = {}
+                for se, ss in ((True, False), (False, True), (False, False)):
+                    try:
+                        opt_exports[(se, ss)] = ("text", mp.to_ascii(show_endpoints=se, show_solution=ss))
+                    except Exception as ex:  # noqa: BLE001
+                        opt_exports[(se, ss)] = ("raises", type(ex).__name__)
                 if values is not None:
                     mp.add_node_values(values.copy(), color_map=["Blues", "viridis"][j % 2])
                 if j % 4 == 2:
@@ -342,6 +349,19 @@ def run(ctx):
                 ctx.check(ascii_plot.replace("X", " ") == own, "C20/to_ascii-differs", lambda: f"plot:\n{ascii_plot}\nmaze:\n{own}", case)
             else:
                 ctx.check(ascii_plot == own, "C20/to_ascii-differs", lambda: f"plot:\n{ascii_plot}\nmaze:\n{own}", case)
+            # the export's own options mirror the maze's: for every other combination the export is what the maze itself draws with
+            # the same options (or is refused just as the maze refuses it)
+            for se, ss in ((True, False), (False, True), (False, False)):
+                with warnings.catch_warnings():
+                    warnings.simplefilter("ignore")
+                    try:
+                        own_o = ("text", maze.as_ascii(show_endpoints=se, show_solution=ss))
+                    except Exception as ex:  # noqa: BLE001
+                        own_o = ("raises", type(ex).__name__)
+                got_o = opt_exports[(se, ss)]
+                ctx.tally("c20:ascii-with-options")
+                ctx.check(got_o == own_o, f"C20/to_ascii-differs/options/{kind}/show_endpoints={se},show_solution={ss}",
+                          lambda: f"plot export: {got_o[0]} {got_o[1]!r}\nmaze itself: {own_o[0]} {own_o[1]!r}"[:900], case)
             exp_ascii = ref.ascii_of(ref.pixels(cl, None if kind == "LatticeMaze" else s, None if kind == "LatticeMaze" else e,
                                                 sol if kind == "SolvedMaze" else None))
             got_ascii = ascii_plot.replace("X", " ") if kind == "TargetedLatticeMaze" else ascii_plot
